@@ -282,7 +282,30 @@ func ruleTrackAdd(c *Ctx) {
 								known, equal = true, eq
 							}
 						}
+						// no further condition decided inside the loop may keep a track from receiving the delta
+						extra := false
+						for _, g := range guardsAlong(prI, level) {
+							if _, ok := tr.eqTest(g, idx, func(l lval) bool { return isRoot(l, trackNo) }); ok {
+								continue
+							}
+							gl := tr.trace(g.cond)
+							in, isInstr := gl.v.(ssa.Instruction)
+							if !isInstr || len(gl.chain) < level {
+								continue
+							}
+							if len(gl.chain) == level {
+								if !loop.blocks[in.Block()] {
+									continue // decided before the loop
+								}
+								if cmp, ok := gl.v.(*ssa.BinOp); ok && cmp.Op == token.LSS && cmp.Y == loop.bound {
+									continue // the loop's own bound test
+								}
+							}
+							extra = true
+						}
 						switch {
+						case extra:
+							problem = "the propagation is subject to a further condition besides index != trackNo: some other track does not receive the delta and its clock falls behind"
 						case !known:
 							problem = "the propagation is not guarded by index != trackNo"
 						case equal:
